@@ -317,7 +317,7 @@ def unpackNumeric (pf : Option Nat) (data : List Char) (t : NumTy) : Except PyEx
   match value with
   | .error e => .error e
   | .ok v =>
-    -- CIMType(value); `except ValueError` → CIMXMLParseError; anything else escapes
+    -- CIMType(value); `except (ValueError, OverflowError)` → CIMXMLParseError; anything else escapes
     let r : Except PyExc Sc := match t, v with
       | .int ty, .inl n => (mkIntCfg ty { pos := [.int n] }).map (fun c => Sc.cimInt c.ty c.val)
       | .int ty, .inr b => (mkIntCfg ty { pos := [.float b] }).map (fun c => Sc.cimInt c.ty c.val)
@@ -327,6 +327,7 @@ def unpackNumeric (pf : Option Nat) (data : List Char) (t : NumTy) : Except PyEx
       | .real64, .inr b => .ok (Sc.real64 b)
     match r with
     | .error .valueError => .error .cimXmlParseError
+    | .error .overflowError => .error .cimXmlParseError      -- INF / beyond the float range (fix 9123e9a)
     | r => r
 
 /-- class invariant of the CIMInt objects offered as *input* (they came out of the constructor, see
